@@ -1,5 +1,8 @@
 import NitroVerif.Props.C12Composed
 import NitroVerif.Lemmas.JsonTextFrame
+import NitroVerif.Lemmas.JsonTextPrintable
+import NitroVerif.Lemmas.JsonTextSubset
+import NitroVerif.Lemmas.JsonTextFuel
 /-!
 # C12 at TEXT level: the emitted literal, read as text, is the source operation plus exactly the fragments it needs
 
@@ -21,6 +24,7 @@ What is ASSUMED about ECMAScript (not provable here, stated once):
        their `SV`, §13.2.4/§13.2.5 array and object initialisers evaluate their elements / `PropertyName : AssignmentExpression`
        pairs in order into elements / own properties, EXCEPT the name `__proto__` (Annex B.3.1), for which the reader answers
        `none`; `C12_text_member_names` shows the printer never writes that name, nor a number, nor a repeated name.
+       That the JSON grammar is INCLUDED in this grammar is not assumed: `json_subset_of_ecmascript` proves it for all texts.
   (E2) the engine implements ES2019 or later: U+2028 / U+2029 may stand raw in a string literal. json-writer does not escape
        them; `C12_text_needs_es2019` shows the literal of a document with such a string is NOT an ES2018 expression.
   (E3) TypeScript's `e as unknown as T` erases to `e`.
@@ -56,25 +60,49 @@ theorem json_string_roundtrip (s : String) (rest : List Char) :
     exact this
 
 /-- every escape class of json-writer's table in one string — `"` `\` `/` BS FF LF CR HT, two other C0 controls (U+0000,
-    U+001F), DEL, a non-ASCII letter, U+2028, U+2029, an astral character: its text, and the kernel evaluating the reader on it -/
+    U+001F), DEL, a non-ASCII letter, U+2028, U+2029, an astral character: the escaped text, and the kernel evaluating both
+    scanners on it (`chars t` is `(jsonText t).toList`, `jsonText_toList`; the kernel evaluates lists of characters much
+    faster than `String`s) -/
 example :
-    jsonStr (String.ofList ['"', '\\', '/', Char.ofNat 8, Char.ofNat 12, '\n', '\r', '\t', Char.ofNat 0, Char.ofNat 31,
-      Char.ofNat 127, 'é', Char.ofNat 0x2028, Char.ofNat 0x2029, Char.ofNat 0x1F600, 'a'])
-      = "\"\\\"\\\\\\/\\b\\f\\n\\r\\t\\u0000\\u001F\x7fé\u2028\u2029😀a\"" ∧
-    (JsonText.parse "\"\\\"\\\\\\/\\b\\f\\n\\r\\t\\u0000\\u001F\x7fé\u2028\u2029😀a\"".toList).bind Json.str? =
-      some (String.ofList ['"', '\\', '/', Char.ofNat 8, Char.ofNat 12, '\n', '\r', '\t', Char.ofNat 0, Char.ofNat 31,
-        Char.ofNat 127, 'é', Char.ofNat 0x2028, Char.ofNat 0x2029, Char.ofNat 0x1F600, 'a']) := by
-  constructor <;> decide +kernel
+    escChars ['"', '\\', '/', Char.ofNat 8, Char.ofNat 12, '\n', '\r', '\t', Char.ofNat 0, Char.ofNat 31,
+      Char.ofNat 127, 'é', Char.ofNat 0x2028, Char.ofNat 0x2029, Char.ofNat 0x1F600, 'a']
+      = "\\\"\\\\\\/\\b\\f\\n\\r\\t\\u0000\\u001F\x7fé\u2028\u2029😀a".toList ∧
+    strBody ("\\\"\\\\\\/\\b\\f\\n\\r\\t\\u0000\\u001F\x7fé\u2028\u2029😀a\";".toList) =
+      some (['"', '\\', '/', Char.ofNat 8, Char.ofNat 12, '\n', '\r', '\t', Char.ofNat 0, Char.ofNat 31,
+        Char.ofNat 127, 'é', Char.ofNat 0x2028, Char.ofNat 0x2029, Char.ofNat 0x1F600, 'a'], [';']) ∧
+    JsLit.strBody true '"' ("\\\"\\\\\\/\\b\\f\\n\\r\\t\\u0000\\u001F\x7fé\u2028\u2029😀a\";".toList) =
+      some (['"', '\\', '/', Char.ofNat 8, Char.ofNat 12, '\n', '\r', '\t', Char.ofNat 0, Char.ofNat 31,
+        Char.ofNat 127, 'é', Char.ofNat 0x2028, Char.ofNat 0x2029, Char.ofNat 0x1F600, 'a'], [';']) := by
+  refine ⟨?_, ?_, ?_⟩ <;> decide +kernel
 
 /-- the reader is not the writer's inverse by construction: it reads what RFC 8259 allows and the writer never produces
     (lower-case hexadecimal digits, `\u` escapes of printable characters, surrogate pairs, white space), and rejects what
     RFC 8259 forbids (a raw control character, a lone surrogate, an unknown escape, a trailing comma, a leading zero) -/
 example :
-    (JsonText.parse " [ \"\\u00e9\\uD83D\\uDE00\\u002f\" ,\t1.5e+3 , { \"a\" : null } ]\n".toList).map jsonText =
-      some "[\"é😀\\/\",1.5e+3,{\"a\":null}]" ∧
+    (JsonText.parse " [ \"\\u00e9\\uD83D\\uDE00\\u002f\" ,\t1.5e+3 , { \"a\" : null } ]\n".toList).map chars =
+      some "[\"é😀\\/\",1.5e+3,{\"a\":null}]".toList ∧
     JsonText.parse ['"', '\n', '"'] = none ∧ JsonText.parse "\"\\uD83D\"".toList = none ∧
     JsonText.parse "\"\\q\"".toList = none ∧ JsonText.parse "[1,]".toList = none ∧ JsonText.parse "01".toList = none := by
   refine ⟨?_, ?_, ?_, ?_, ?_, ?_⟩ <;> decide +kernel
+
+/-- THE READERS' ANSWERS DO NOT DEPEND ON THE FUEL (the readers recurse on explicit fuel to be total). For EVERY text: if some fuel
+    makes a reader read a value at the head of the text, every larger fuel and the standard fuel `fuelFor` (what `parse` and
+    `JsLit.expr` use) give the same tree and the same rest; so `JsonText.parse s = none` means that NO amount of fuel makes `s`
+    a JSON text — the reference readers are the fuel-free relations "this text denotes this tree". -/
+theorem json_reader_fuel_independent (s : List Char) (t : Json) (r : List Char) (f : Nat) :
+    (value rfc8259 f s = some (t, r) →
+      (∀ g, f ≤ g → value rfc8259 g s = some (t, r)) ∧ value rfc8259 (fuelFor s) s = some (t, r)) ∧
+    (value JsLit.lex f s = some (t, r) →
+      (∀ g, f ≤ g → value JsLit.lex g s = some (t, r)) ∧ JsLit.expr s = some (t, r)) ∧
+    (JsonText.parse s = none → value rfc8259 f s = some (t, r) → skipWs rfc8259.ws r ≠ []) := by
+  refine ⟨fun h => value_fuelFor rfc8259_consumes h, fun h => value_fuelFor (jsLit_consumes true) h, fun hn h he => ?_⟩
+  have := (value_fuelFor rfc8259_consumes h).2
+  simp [JsonText.parse, parseWith, this, he] at hn
+
+/-- a text read with little fuel (4 is enough for `[[1],2]`), hence with every fuel -/
+example : (value rfc8259 4 "[[1],2] x".toList).map (fun p => (chars p.1, p.2)) = some ("[[1],2]".toList, " x".toList) ∧
+    value rfc8259 3 "[[1],2] x".toList = none := by
+  constructor <;> decide +kernel
 
 /-- JSON TEXT ROUND TRIP. For EVERY JSON tree `t` whose numbers are number tokens of RFC 8259 §6 (`good rfc8259.key t`: the
     only condition; strings and member names are arbitrary, nesting and sizes unbounded, member order and repeated names kept)
@@ -98,7 +126,7 @@ example : good rfc8259.key
 /-- Why the hypothesis on numbers: `Json.num` keeps a raw text; a raw text that is not a number token is not read back. -/
 theorem json_text_roundtrip_needs_number_tokens :
     JsonText.parse (jsonText (.num "01")).toList = none ∧ JsonText.parse (jsonText (.num "")).toList = none ∧
-    (JsonText.parse (jsonText (.arr [.num "1,2"])).toList).map jsonText = some "[1,2]" := by
+    (JsonText.parse (jsonText (.arr [.num "1,2"])).toList).map chars = some "[1,2]".toList := by
   refine ⟨?_, ?_, ?_⟩ <;> decide +kernel
 
 /-- The document printer writes NO JSON number (graphql-js keeps `IntValue` / `FloatValue` literals as strings), only the
@@ -157,15 +185,17 @@ theorem C12_text_closure_frag (defs : List ExecDef) (hres : Resolved defs) (f : 
   exact ⟨names, _, hc, hnd, h1, h2, h3⟩
 
 /-- a document satisfying the hypotheses of `C12_text_closure` whose runtime document has a non-empty tail and a string with
-    every escape class; the kernel evaluates the whole chain text → JSON → `DocumentNode` on it -/
+    every escape class; the kernel evaluates the whole chain text → JSON → `DocumentNode` on it (`chars (toJson ds)` is the list of
+    characters of `runtimeText`'s text, `jsonText_toList`; the definitions read are compared through their own text because
+    `ExecDef` has no decidable equality) -/
 example :
     let F : FragmentDef := { name := "F", cond := "T", sel := [.field none "c" {} [("s", {}, .str "\"\\/\u0008\u000c\n\r\t\u0001é\u2028😀" {})] [] none] }
     let Q : OperationDef := { kind := .query, name := some ("Q", {}), sel := [.spread "F" {} [] {}] }
     Resolved [.op Q, .frag F] ∧ ExecDef.op Q ∈ [ExecDef.op Q, .frag F] ∧
-    (match runtimeText [.op Q, .frag F] (.op Q) with
-     | .ok txt => (readText txt.toList).map fun ds => jsonText (toJson ds)
-     | .error _ => none) = some (jsonText (toJson (erasePos [.op Q, .frag F]))) := by
-  refine ⟨by decide, by simp, by decide +kernel⟩
+    (match runtimeDefs [.op Q, .frag F] (.op Q) with
+     | .ok ds => (readText (chars (toJson ds))).map fun r => chars (toJson r)
+     | .error _ => none) = some (chars (toJson (erasePos [.op Q, .frag F]))) := by
+  refine ⟨by decide +kernel, by simp, by decide +kernel⟩
 
 variable {κ ρ : Type} [DecidableEq κ] [DecidableEq ρ]
 variable (code : Name → Nat) (res : κ → ρ → κ) (fs : Project κ ρ) (root : κ) (rootFile : SrcFile ρ)
@@ -214,8 +244,8 @@ theorem C12_text_from_files_frag (hroot : RootOKp fs root rootFile) (hfiles : Pr
 
 /-- the hypotheses of `C12_text_from_files` hold of the diamond project of `Props/C12Composed.lean`, so its conclusion does;
     and the kernel evaluates the chain on the text of `Q`'s runtime document: `Q, Y, X1, X0` -/
-example : (match runtimeText Ex.exR (.op Ex.opQ) with
-     | .ok txt => (readText txt.toList).map fragNamesOf
+example : (match runtimeDefs Ex.exR (.op Ex.opQ) with
+     | .ok ds => (readText (chars (toJson ds))).map fragNamesOf
      | .error _ => none) = some ["Y", "X1", "X0"] := by
   decide +kernel
 
@@ -239,8 +269,37 @@ example : good JsLit.lex.key
 /-- the side condition on member names is needed: `{"__proto__": …}` as an object LITERAL sets the prototype (Annex B.3.1)
     while `JSON.parse` creates a member — the ECMAScript reader refuses it, the JSON reader reads it -/
 example : JsLit.expr (jsonText (.obj [("__proto__", .null)])).toList = none ∧
-    (JsonText.parse (jsonText (.obj [("__proto__", .null)])).toList).map jsonText = some "{\"__proto__\":null}" := by
+    (JsonText.parse (jsonText (.obj [("__proto__", .null)])).toList).map chars = some "{\"__proto__\":null}".toList := by
   constructor <;> decide +kernel
+
+/-- JSON ⊂ ECMASCRIPT (ES2019), for ALL texts — not only the writer's. Whenever the RFC 8259 reader reads a value at the head of a
+    text as the tree `t` leaving `r` (any fuel), and no member of `t` is named `__proto__`, the ECMAScript literal reader reads
+    the same text as the same tree leaving the same `r`; in particular a whole JSON text is an ECMAScript literal expression
+    with the same value, followed by nothing but JSON white space. This is the "JSON superset" fact, proved between the two
+    transcriptions of `Spec/JsonText.lean` (so what remains assumed under (E1) is that `JsLit` transcribes ECMA-262, not that
+    the two grammars are compatible). The two side conditions are sharp: `__proto__` (example above) and ES2019
+    (`C12_text_needs_es2019`). -/
+theorem json_subset_of_ecmascript (s : List Char) (t : Json) (hp : protoFree t = true) :
+    (∀ f r, value rfc8259 f s = some (t, r) → value JsLit.lex f s = some (t, r)) ∧
+    (JsonText.parse s = some t → ∃ r, JsLit.expr s = some (t, r) ∧ skipWs rfc8259.ws r = []) := by
+  refine ⟨fun f r h => (js_of_rfc_fuel f).1 s t r h hp, fun h => ?_⟩
+  simp only [JsonText.parse, parseWith] at h
+  cases hv : value rfc8259 (fuelFor s) s with
+  | none => simp [hv] at h
+  | some p =>
+    obtain ⟨t', r⟩ := p
+    simp only [hv] at h
+    split at h
+    · rename_i he
+      simp only [Option.some.injEq] at h
+      subst h
+      exact ⟨r, (js_of_rfc_fuel _).1 s _ r hv hp, by simpa using he⟩
+    · cases h
+
+/-- the hypotheses are satisfiable by a text the writer would never produce (white space everywhere, `\u` escapes of
+    printable characters, lower-case hexadecimal digits, a surrogate pair, an exponent) -/
+example : (JsonText.parse " [ \"\\u00e9\\uD83D\\uDE00\\u002f\" ,\t1.5e+3 , { \"a\" : null } ]\n".toList).map protoFree = some true := by
+  decide +kernel
 
 /-- The two readers agree on every document the printer writes: `JSON.parse` of the text and evaluation of the text as an
     ECMAScript literal give the same tree. -/
@@ -295,17 +354,56 @@ theorem C12_text_module_js {fo : FullOpts} {D : Doc} {docFile : Nat} {ops : List
     ∀ s ∈ jsStmts fo D docFile (operationCount D) 0 D, JsStmtOk D D s :=
   ⟨opJsOps_text h, jsStmts_values fo D docFile _ D ops 0 h⟩
 
-/-- non-vacuity of the module theorems: the module of `query Q { ...F }  fragment F on T { c(s: "<every escape class>") }`;
-    the kernel reads the expression behind `const QQuery = ` and stops at the `;` -/
+/-- THE WHOLE `.graphql.ts` FILE (`print_types_for_operation_document`): whenever the printer returns, the concatenated text of its
+    calls is the two import lines followed by the statements `typeStmts` (C06, `opTypeOps_text`), and every statement is a type
+    alias, the default export, a constant without a value (`print_values` off: nothing of C12 is emitted) or a constant
+    `[export ]const <Name>: T = <literal> as unknown as T;` whose literal is the text of the runtime document of a definition of the
+    document — to which `C12_text_embedded_ts` applies. -/
+theorem C12_text_module_ts {fo : FullOpts} {S : Schema} {D : Doc} {docFile : Nat} {sps : List Pos} {ops : List POp}
+    (h : opTypeOps fo S D docFile sps = .ok ops) :
+    rawText ops = opHeaderText fo ++ stmtsText (typeStmts fo S D docFile (operationCount D) 0 D) ∧
+    ∀ s ∈ typeStmts fo S D docFile (operationCount D) 0 D, TsStmtOk D D s := by
+  refine ⟨opTypeOps_text h, ?_⟩
+  unfold opTypeOps at h
+  split at h
+  · cases h
+  · rename_i r hr
+    exact typeStmts_values fo S D docFile _ D sps r 0 hr
+
+/-- the hypothesis of `C12_text_module_ts` holds in standalone mode (`print_values`) for `query q { a(s: "<escapes>") }` over
+    `type Query { a: Int }` -/
+example : ∃ ops, opTypeOps { names := { printValues := true } }
+    ⟨[.typeDef { kind := .object, name := "Query", fields := [{ name := "a", ty := .named "Int" {} }] }]⟩
+    [.op { kind := .query, name := some ("q", {}),
+           sel := [.field none "a" {} [("s", {}, .str "\"\\/\n\u0001\u2028😀" {})] [] none] }] 0 [{}] = .ok ops :=
+  ⟨_, rfl⟩
+
+/-- non-vacuity of the module theorems: `print_js_for_operation_document` returns for the module of
+    `query Q { ...F }  fragment F on T { c(s: "<every escape class>") }`, and the kernel reads the expression that stands behind
+    `const QQuery = ` (the characters of the runtime document's text followed by the rest of the statement and the next one),
+    stopping at the `;` -/
 example :
     let F : FragmentDef := { name := "F", cond := "T", sel := [.field none "c" {} [("s", {}, .str "\"\\/\u0008\u000c\n\r\t\u0001é\u2028😀" {})] [] none] }
     let Q : OperationDef := { kind := .query, name := some ("Q", {}), sel := [.spread "F" {} [] {}] }
-    (match opJsOps {} [.op Q, .frag F] 0 with
-     | .ok ops =>
-       (readJsExpr ((rawText ops).toList.drop "const QQuery = ".length)).map fun p =>
-         (jsonText (toJson p.1), String.ofList (p.2.take 20))
-     | .error _ => none) = some (jsonText (toJson (erasePos [.op Q, .frag F])), ";\n\nexport { QQuery a") := by
-  decide +kernel
+    (opJsOps {} [.op Q, .frag F] 0).toOption.isSome = true ∧
+    (match runtimeDefs [.op Q, .frag F] (.op Q) with
+     | .ok ds =>
+       (readJsExpr (chars (toJson ds) ++ ";\n\nexport { QQuery as default };\n\n".toList)).map fun p =>
+         (chars (toJson p.1), p.2)
+     | .error _ => none) =
+      some (chars (toJson (erasePos [.op Q, .frag F])), ";\n\nexport { QQuery as default };\n\n".toList) := by
+  constructor <;> decide +kernel
+
+/-- The literal of every document contains no raw control character — json-writer escapes every C0 control and the structural
+    characters are printable — so in particular no line break: the literal stays on the line of its `const` (which the
+    harness's line-based extraction relies on), and the indentation `SourceWriter` inserts at line starts never falls inside it
+    (which is why `rawText`, the concatenation of the written chunks, is the module text around and inside the literal). -/
+theorem C12_text_single_line (defs : List ExecDef) :
+    ∀ c ∈ (jsonText (toJson defs)).toList, 32 ≤ c.toNat ∧ c ≠ '\n' ∧ c ≠ '\r' := by
+  intro c hc
+  rw [jsonText_toList] at hc
+  have := chars_printable _ (shape_toJson defs) c hc
+  refine ⟨this, ?_, ?_⟩ <;> (intro e; subst e; simp at this)
 
 /-- What (E2) buys. json-writer escapes only `"` `\` `/` and the C0 controls; U+2028 / U+2029 are written raw. A GraphQL string
     may contain them (they are `SourceCharacter`s, not GraphQL line terminators), so the literal of such a document is an
@@ -318,11 +416,12 @@ theorem C12_text_needs_es2019 :
     value JsLit.lex2018 (fuelFor (jsonText (toJson d)).toList) (jsonText (toJson d)).toList = none ∧
     (JsLit.expr (jsonText (toJson d)).toList).map (·.2) = some [] ∧
     readText (jsonText (toJson d)).toList = some (erasePos d) := by
-  refine ⟨by decide, by decide +kernel, ?_, ?_⟩
+  refine ⟨by decide +kernel, ?_, ?_, ?_⟩
+  · rw [jsonText_toList]; decide +kernel
   · have := expr_doc [.op { kind := .query, sel := [.field none "a" {} [("s", {}, .str (String.ofList [Char.ofNat 0x2028]) {})] [] none] }]
       [] delim_nil
     simp only [List.append_nil] at this
     rw [this]; rfl
-  · exact (C12_text_level _ (by decide)).2
+  · exact (C12_text_level _ (by decide +kernel)).2
 
 end NitroVerif.C12
